@@ -57,7 +57,7 @@ SHARDS = {'quick': 4, 'thorough': 16}
 
 GRID = [0, 1, 9, 10, 99, 100, 999]
 SUFFIX_NAMES = ['a', 'alpha', 'b', 'beta', 'rc']
-SUFFIX_NUMBERS = ['0', '1', '2', '10', '999', '01']
+SUFFIX_NUMBERS = ['0', '1', '2', '10', '999', '01', '1000', '20240101', '4294967296', '0000']      # the suffix number is not a component: no 0..999 bound
 SUFFIX_DONTCARE = ['rc', 'a', 'alpha', 'b', 'beta', 'RC1', 'A1', 'Beta2', 'c1', 'pre1', 'preview1', 'dev1',
                    '.dev1', 'post1', '.post1', '-rc1', '.rc1', '_rc1', 'rc1 ', ' rc1', 'rc1\n', 'a1b2', 'rc-1',
                    'rc.1', 'alpha1.', 'rcx']
@@ -696,7 +696,7 @@ def run(ctx):
     for _blk, rng, n in blocks('suffix', ctx.pick(3000, 60000)):
         for _ in range(n):
             evaluate(ctx, {'kind': 'suffix', 'v': list(random_tuple(rng)), 'cls': 'documented',
-                           'suffix': rng.choice(SUFFIX_NAMES) + str(rng.choice((0, 1, 2, rng.randrange(1000))))})
+                           'suffix': rng.choice(SUFFIX_NAMES) + str(rng.choice((0, 1, 2, rng.randrange(1000), rng.randrange(1000, 10 ** 9))))})
     # a suffix anywhere but on the last component is a non-numeric component
     for v, name, pos in itertools.product([(1, 2, 3), (1, 2), (9, 10, 99, 100, 999)], SUFFIX_NAMES, range(4)):
         if pos < len(v) - 1:
